@@ -163,6 +163,40 @@ def builtin_failure_program():
     return "\n".join(lines) + "\n", expected, {"bad_syntax_module": "var = ;\n"}
 
 
+AFTERMATH = [
+    # (setup, failing statement, observation afterwards): a failed operation leaves nothing behind - the same in every build
+    ("", "undeclared_a = 1;", "try { print(undeclared_a); } catch e2 { print(type(e2)); } try { undeclared_a = 2; } catch e3 { print(type(e3)); } try { print(undeclared_a); } catch e4 { print(type(e4)); }"),
+    ("", "undeclared_b += 1;", "try { print(undeclared_b); } catch e2 { print(type(e2)); }"),
+    ("var v = [1];", "v[3] = 1;", "print(v); print(v.len());"),
+    ("var v = [1, 2];", "v[0.5] = 9;", "print(v);"),
+    ("var v = [];", "v.pop();", "print(v); v.push(1); print(v.pop()); print(v);"),
+    ("var v = [1];", "v.push();", "print(v);"),
+    ("var m = {1: 2};", "m.insert([], 1);", "print(m.len()); print(m.keys());"),
+    ("var m = {1: 2};", "m.insert((1, [2]), 1);", "print(m.len());"),
+    ("var m = {};", "var z = {1: 1, [2]: 2};", "print(m.len());"),
+    ("#[constructor(new)] class P {} var o = P.new();", "o.missing();", "o.f = 1; print(o.f);"),
+    ("var q = 5;", "q.x = 1;", "print(q);"),
+    ("", "import \"no_such_module\";", "try { print(no_such_module); } catch e2 { print(type(e2)); }"),
+    ("", "import \"bad_syntax_module\";", "try { print(bad_syntax_module); } catch e2 { print(type(e2)); } try { import \"bad_syntax_module\"; } catch e3 { print(type(e3)); }"),
+    ("var NotC = 3;", "#[derive(NotC)] class Bad {}", "try { print(Bad); } catch e2 { print(type(e2)); } class Good { #[static] fn s() { return 1; } } print(Good.s());"),
+    ("fn two(a, b) { return a; }", "two(1);", "print(two(1, 2));"),
+    ("var fb = Fiber.new(|a| a);", "fb.call();", "print(fb.has_finished()); print(fb.call(7)); print(fb.has_finished());"),
+    ("var fb = Fiber.new(|| { Fiber.yield(1); return 2; }); fb.call();", "fb.call(1, 2);", "print(fb.call()); print(fb.has_finished());"),
+    ("var s = \"abc\";", "s[0] = \"x\";", "print(s);"),
+    ("var t = (1, 2);", "t[0] = 3;", "print(t);"),
+    ("var it = [1, 2].iter();", "it.next(1);", "print(it.next()); print(it.next());"),
+    ("var r = 0;", "for x in 5 { r = r + 1; }", "print(r);"),
+    ("var n = 1;", "n += nil;", "print(n);"),
+]
+
+
+def aftermath_program():
+    lines = []
+    for k, (setup, stmt, after) in enumerate(AFTERMATH):
+        lines.append("{ %s try { %s print(\"no error %d\"); } catch e { print(\"%d \" + String.from(type(e))); } %s }" % (setup, stmt, k, k, after))
+    return "\n".join(lines) + "\n", {"bad_syntax_module": "var = ;\n"}
+
+
 # open findings: kept as corpus replays with their expected (property-conforming) output
 KNOWN_SCENARIOS = [
     ("F13-break-out-of-try", 'fn f() { for i in 0..3 { try { if i == 1 { break; } print(i); } catch e { print("stale catch " + e); } } }\nf();\nthrow "later";',
@@ -264,7 +298,7 @@ def correspondence(ctx, model_ok=True):
                 which[0], which[1], printed[k:k + 1], c[0], list(c[3])[:1] if len(c) > 3 else ""),
                 "program": bsrc, "modules": bmods, "expected": bexp, "signature": "builtin failure not caught: " + str(which[0])[:40], "failing_input": True})
     # (c) reference interpreter
-    sd = specdiff.diff(ctx, [(n, s, m) for n, s, m, _ in gen] + [("scenario:" + sc[0], sc[1], {}) for sc in SCENARIOS], "C08", broken) if model_ok else {"failures": [], "compared": 0}
+    sd = specdiff.diff(ctx, [(n, s, m) for n, s, m, _ in gen] + [("scenario:" + sc[0], sc[1], {}) for sc in SCENARIOS] + [("scenario:aftermath",) + aftermath_program()], "C08", broken) if model_ok else {"failures": [], "compared": 0}
     failures += sd["failures"]
     tags = {}
     for _, _, _, tg in gen:
